@@ -1,6 +1,8 @@
 /- mpn_binvert: the Newton loop over the reversed schedule, the Hensel loop of mpn_sb_bdiv_q, the base case. -/
 import MpirProofs.Lemmas.BinvertStep
 import Mathlib.Tactic.LinearCombination
+import Mathlib.Tactic.IntervalCases
+import Mathlib.Tactic.NormNum
 namespace Mpir.Binvert
 open Mpir Mpir.Powm Mpir.PowmL Mpir.Mm1
 
@@ -256,5 +258,63 @@ theorem base_inv (dcThr : Nat) (jk : Nat → Nat) (up : List Nat) (rn : Nat) (rp
     · rw [r1take]
       apply mul_mod_lift
       rw [huv]; exact q3
+
+/-! ### the size of `sizes[]` -/
+
+theorem schedule_len (thr : Nat) : ∀ (f rn e : Nat), 1 ≤ rn → rn - 1 < 2 ^ e * (thr - 1) →
+    (schedule thr f rn).1.length ≤ e
+  | 0, rn, e, _, _ => by simp [schedule]
+  | f + 1, rn, e, h1, h2 => by
+    unfold schedule
+    by_cases ha : aboveThr rn thr = true
+    · rw [if_pos ha]
+      have hthr : 1 ≤ thr := by
+        rcases Nat.eq_zero_or_pos thr with h | h
+        · subst h; simp at h2
+        · exact h
+      have hge := (aboveThr_iff rn thr hthr).mp ha
+      cases e with
+      | zero => simp at h2; omega
+      | succ e' =>
+        have h3 : (rn + 1) / 2 - 1 < 2 ^ e' * (thr - 1) := by
+          rw [pow_succ] at h2
+          have e2 : 2 ^ e' * 2 * (thr - 1) = 2 * (2 ^ e' * (thr - 1)) := by ring
+          rw [e2] at h2
+          generalize 2 ^ e' * (thr - 1) = w at *
+          omega
+        have := schedule_len thr f ((rn + 1) / 2) e' (by omega) h3
+        simp only [List.length_cons]; omega
+    · rw [if_neg ha]; simp
+
+theorem log2c_count : ∀ j, j ≤ 15 → ((List.range 16).filter (fun i => decide (i ≤ j))).length = j + 1 := by decide
+
+theorem npows_bound (thr : Nat) (hthr : 2 ≤ thr) : 2 ^ 46 ≤ 2 ^ (npows thr) * (thr - 1) := by
+  have hne : thr ≠ 0 := by omega
+  have l1 := Nat.log2_self_le hne
+  have l2 := @Nat.lt_log2_self thr
+  have l3 : 1 ≤ thr.log2 := (Nat.le_log2 hne).mpr (by omega)
+  have hc : log2c thr = min thr.log2 15 + 1 := by
+    rw [← log2c_count _ (Nat.min_le_right _ _)]
+    unfold log2c
+    congr 1
+    apply List.filter_congr
+    intro i hi
+    have hi16 : i < 16 := List.mem_range.mp hi
+    have : (thr ≥ 2 ^ i) ↔ (i ≤ min thr.log2 15) := by
+      constructor
+      · intro h
+        have := (Nat.le_log2 hne).mpr h
+        omega
+      · intro h
+        have : 2 ^ i ≤ 2 ^ thr.log2 := Nat.pow_le_pow_right (by norm_num) (by omega)
+        omega
+    simp only [this]
+  unfold npows
+  rw [hc]
+  have hj : 2 ^ (min thr.log2 15) ≤ thr := le_trans (Nat.pow_le_pow_right (by norm_num) (Nat.min_le_left _ _)) l1
+  have hj1 : 1 ≤ min thr.log2 15 := by omega
+  have hj15 : min thr.log2 15 ≤ 15 := Nat.min_le_right _ _
+  generalize min thr.log2 15 = j at *
+  interval_cases j <;> norm_num at hj ⊢ <;> omega
 
 end Mpir.Binvert
